@@ -57,6 +57,11 @@ package conversion
 //@   ensures[C20] err == nil && rkind(rbase(v)) == 23 ==> rkind(rbase(w)) == 23
 //@   ensures[C20] err == nil && rkind(rbase(v)) == 23 ==> rbase(v).rlen == old(rbase(w).rlen)
 //@   ensures[C20] err == nil && rkind(rbase(v)) == 23 ==> forall i int {ridx(rbase(v), i)} :: 0 <= i && i < rbase(v).rlen ==> rbase(ridx(rbase(v), i)).rfrom == rbase(ridx(rbase(w), i))
+// completeness for scalars: compatible kinds (and, for integers, a value that fits) are converted
+//@   ensures[C20] rkind(rbase(v)) == 1 && rkind(rbase(w)) == 1 ==> err == nil
+//@   ensures[C20] rkind(rbase(v)) == 24 && rkind(rbase(w)) == 24 ==> err == nil
+//@   ensures[C20] (rkind(rbase(v)) == 13 || rkind(rbase(v)) == 14) && (rkind(rbase(w)) == 13 || rkind(rbase(w)) == 14) ==> err == nil
+//@   ensures[C20] 2 <= rkind(rbase(v)) && rkind(rbase(v)) <= 11 && 2 <= rkind(rbase(w)) && rkind(rbase(w)) <= 11 && kmin(rkind(rbase(v))) <= old(rbase(w).rval) && old(rbase(w).rval) <= kmax(rkind(rbase(v))) ==> err == nil
 //@   ensures[C20] err == nil && rkind(rbase(v)) == 21 ==> rkind(rbase(w)) == 21
 //@   ensures[C20] err == nil && rkind(rbase(v)) == 25 ==> rkind(rbase(w)) == 25
 //@   ensures[C20] err == nil && 2 <= rkind(rbase(v)) && rkind(rbase(v)) <= 6 ==> 2 <= rkind(rbase(w)) && rkind(rbase(w)) <= 6 && kmax(rkind(rbase(w))) <= kmax(rkind(rbase(v)))
